@@ -143,6 +143,13 @@ func init() {
 		}
 		defer os.RemoveAll(indir)
 		tplInputs := detInputs(indir, 5)
+		// the same files on larger trees: a default that is computed from the input only shows on inputs large enough
+		indirBig, err := os.MkdirTemp(filepath.Dir(*out), "flinbig")
+		if err != nil {
+			fatal("%v", err)
+		}
+		defer os.RemoveAll(indirBig)
+		tplInputsBig := detInputsN(indirBig, 6, 30)
 		shortOf = map[string]string{}
 		collectShorthands(gcmd.RootCmd)
 		f, err := os.Create(*out)
@@ -183,6 +190,9 @@ func init() {
 				for _, tp := range detTemplates {
 					if base := templateFor(tp, r, tplInputs); base != nil {
 						ctxs = append(ctxs, base)
+						if tp.args[0] != "generate" {
+							ctxs = append(ctxs, templateFor(tp, r, tplInputsBig))
+						}
 					}
 				}
 				same, detail := true, ""
@@ -288,10 +298,14 @@ func omittedVsDefault(bin, scratch string, base []string, r flagRow) (bool, stri
 	if a.key() == b.key() {
 		return true, ""
 	}
-	// believed only when both runs are reproducible
-	a2 := runGotree(bin, scratch, base)
-	b2 := runGotree(bin, scratch, with)
-	if a2.key() != a.key() || b2.key() != b.key() {
+	// believed only when both runs are reproducible (four runs each) and no outcome is common to both: a command whose
+	// output depends on timing (two readers on the same standard input, ...) is not judged
+	ka, kb := map[string]bool{a.key(): true}, map[string]bool{b.key(): true}
+	for i := 0; i < 3; i++ {
+		ka[runGotree(bin, scratch, base).key()] = true
+		kb[runGotree(bin, scratch, with).key()] = true
+	}
+	if len(ka) > 1 || len(kb) > 1 {
 		return true, "not reproducible: not judged"
 	}
 	return false, fmt.Sprintf("%v omitted: rc=%d out=%q err=%q files=%s | given %s: rc=%d out=%q err=%q files=%s",
